@@ -11,7 +11,7 @@ package main
 // shape   = arr:<T> | fix:<T> (constant-sized, 4 elements) | dict:<K>:<V>      T,K,V ∈ I S A P
 //           (I Int, S String, A [Int], P struct K.P(a: Int, b: String); keys: I or S)
 // history = tx ("|" tx)*     tx = ("M"|"R") ":" op (";" op)*
-// element tokens: I decimal; S <letter><n> (the letter repeated n times); A i.i.i or e; P <int>_<S token>
+// element tokens: I decimal, or p<k>x<c> = 2^k + c (an Int too large to be inlined into its parent slab); S <letter><n> (the letter repeated n times); A i.i.i or e; P <int>_<S token>
 // element lists: tokens joined by "+", "-" = empty list
 // array ops:  ap,E  aa,L  in,i,E  rm,i  rf  rl  gt,i  st,i,E  sl,a,b  rv  cc,L  fl,k  mp,k  ct,E  fi,E  ln
 //             tc,n (toConstantSized<[T; n]>)  tv (toVariableSized)   SL,a,b RV CC,L FL,k (c = c.slice(…) …; mode M)
@@ -71,6 +71,10 @@ func contStr(tok string) string {
 func contElem(t, tok string) string {
 	switch t {
 	case "I":
+		if strings.HasPrefix(tok, "p") {
+			i := strings.Index(tok, "x")
+			return "((1 << " + tok[1:i] + ") + " + tok[i+1:] + ")"
+		}
 		return tok
 	case "S":
 		return contStr(tok)
@@ -81,7 +85,7 @@ func contElem(t, tok string) string {
 		return "[" + strings.ReplaceAll(tok, ".", ", ") + "]"
 	case "P":
 		i := strings.Index(tok, "_")
-		return "K.P(a: " + tok[:i] + ", b: " + contStr(tok[i+1:]) + ")"
+		return "K.P(a: " + contElem("I", tok[:i]) + ", b: " + contStr(tok[i+1:]) + ")"
 	}
 	return "BAD"
 }
@@ -517,6 +521,9 @@ type contGen struct {
 func contRandElem(r *hx.Rng, t string) string {
 	switch t {
 	case "I":
+		if r.Chance(3) { // beyond the inline limit of an array element (~2^4000) / a dictionary key (~2^1800)
+			return r.Pick([]string{"p9000x7", "p4400x1", "p2000x3"})
+		}
 		return r.Pick([]string{"0", "1", "2", "3", "5", "8", "11", "12", "42", "-7", "1000000", "340282366920938463463374607431768211456"})
 	case "S":
 		c := string(rune('a' + r.Intn(4)))
